@@ -372,6 +372,8 @@ pub fn property() -> Property {
     add!("decomposed_fields-Quaternion-f32", "f32", decomposed_fields::<f32, Decomposed<Vector3<f32>, Quaternion<f32>>>, 500, 30_000, 80, &[], RD, true);
     add!("decomposed_fields-Basis3-f64", "f64", decomposed_fields::<f64, Decomposed<Vector3<f64>, Basis3<f64>>>, 500, 30_000, 80, &[], RD, true);
     add!("decomposed_fields-Basis2-f32", "f32", decomposed_fields::<f32, Decomposed<Vector2<f32>, Basis2<f32>>>, 500, 30_000, 80, &[], RD, true);
+    add!("decomposed_fields-Basis3-f32", "f32", decomposed_fields::<f32, Decomposed<Vector3<f32>, Basis3<f32>>>, 500, 30_000, 80, &[], RD, true);
+    add!("decomposed_fields-Basis2-f64", "f64", decomposed_fields::<f64, Decomposed<Vector2<f64>, Basis2<f64>>>, 500, 30_000, 80, &[], RD, true);
     Property {
         id: "C20",
         title: "Serialized values round-trip exactly and keep their field structure",
